@@ -246,6 +246,7 @@ type coreInstance struct {
 }
 
 type cluWorld struct {
+	hmu     sync.Mutex
 	vib     *rpc.Vibranium
 	vibOf   *coreInstance
 	sim     *simrt.Sim
@@ -276,6 +277,8 @@ type cluWorld struct {
 
 func (w *cluWorld) viol(prop, rule, sig, detail string) {
 	k := prop + rule + sig
+	w.hmu.Lock()
+	defer w.hmu.Unlock()
 	if w.seenV[k] {
 		return
 	}
@@ -283,11 +286,32 @@ func (w *cluWorld) viol(prop, rule, sig, detail string) {
 	w.res.Violations = append(w.res.Violations, Violation{Property: prop, Rule: rule, Sig: sig, Detail: detail + " [" + w.curOp + "]", OpIndex: w.opIndex, Step: w.sim.Stats.Steps})
 }
 
-func (w *cluWorld) probe(name string) { w.res.Probes[name]++ }
+// hmu guards the harness' own bookkeeping that client tasks of a concurrent history
+// touch (probes, ownership, op log). The sections are tiny and sit at operation
+// boundaries only, so the happens-before edges they add do not order the bodies of
+// operations (C34 relies on that).
+func (w *cluWorld) probe(name string) {
+	w.hmu.Lock()
+	w.res.Probes[name]++
+	w.hmu.Unlock()
+}
+
+func (w *cluWorld) setFlag(m map[string]bool, k string, v bool) {
+	w.hmu.Lock()
+	if v {
+		m[k] = true
+	} else {
+		delete(m, k)
+	}
+	w.hmu.Unlock()
+}
 
 func newCluWorld(sim *simrt.Sim, res *Result, prop string, cfg cluCfg, seed uint64) *cluWorld {
 	w := &cluWorld{sim: sim, res: res, prop: prop, cfg: cfg, seenV: map[string]bool{}, engines: map[string]*simengine.Node{},
 		owned: map[int]map[string]bool{}, dissociated: map[string]bool{}, stoppedByOp: map[string]bool{}, apps: map[string]bool{}, remapDirty: map[string]bool{}}
+	for t := 0; t < max(1, cfg.Tasks); t++ {
+		w.owned[t] = map[string]bool{} // one per client task, created before the tasks start
+	}
 	if prop == "C32" {
 		sim.OnRelease = func(ev simrt.TraceEvent) {
 			if ev.What == "err" {
